@@ -56,7 +56,11 @@ func (j *JsonConverter) importSchema() error {
 func (j *JsonConverter) importFullType(fullType *FullType) (err error) {
 	switch fullType.Kind {
 	case SCALAR:
-		j.doc.ImportScalarTypeDefinition(fullType.Name, fullType.Description)
+		if fullType.SpecifiedByURL != nil {
+			j.doc.ImportScalarTypeDefinitionWithDirectives(fullType.Name, fullType.Description, []int{j.importSpecifiedByDirective(*fullType.SpecifiedByURL)})
+		} else {
+			j.doc.ImportScalarTypeDefinition(fullType.Name, fullType.Description)
+		}
 	case OBJECT:
 		err = j.importObject(fullType)
 	case ENUM:
@@ -97,10 +101,17 @@ func (j *JsonConverter) importInterface(fullType *FullType) error {
 		return err
 	}
 
-	j.doc.ImportInterfaceTypeDefinition(
+	iRefs := make([]int, len(fullType.Interfaces))
+	for i := range iRefs {
+		iRefs[i] = j.importType(fullType.Interfaces[i])
+	}
+
+	j.doc.ImportInterfaceTypeDefinitionWithDirectives(
 		fullType.Name,
 		fullType.Description,
-		fieldRefs)
+		fieldRefs,
+		iRefs,
+		nil)
 
 	return nil
 }
@@ -111,11 +122,12 @@ func (j *JsonConverter) importDirective(directive Directive) error {
 		return err
 	}
 
-	j.doc.ImportDirectiveDefinition(
+	ref := j.doc.ImportDirectiveDefinition(
 		directive.Name,
 		directive.Description,
 		argRefs,
 		directive.Locations)
+	j.doc.DirectiveDefinitions[ref].Repeatable.IsRepeatable = directive.IsRepeatable
 
 	return nil
 }
@@ -219,8 +231,13 @@ func (j *JsonConverter) importInputField(field InputValue) (ref int, err error) 
 		return -1, err
 	}
 
-	return j.doc.ImportInputValueDefinition(
-		field.Name, field.Description, typeRef, defaultValue), nil
+	ref = j.doc.ImportInputValueDefinition(
+		field.Name, field.Description, typeRef, defaultValue)
+	if field.IsDeprecated {
+		j.doc.InputValueDefinitions[ref].HasDirectives = true
+		j.doc.InputValueDefinitions[ref].Directives.Refs = append(j.doc.InputValueDefinitions[ref].Directives.Refs, j.importDeprecatedDirective(field.DeprecationReason))
+	}
+	return ref, nil
 }
 
 func (j *JsonConverter) importType(typeRef TypeRef) (ref int) {
@@ -272,4 +289,14 @@ func (j *JsonConverter) importDeprecatedDirective(reason *string) (ref int) {
 	}
 
 	return j.doc.ImportDirective(DeprecatedDirectiveName, args)
+}
+
+func (j *JsonConverter) importSpecifiedByDirective(url string) (ref int) {
+	valueRef := j.doc.ImportStringValue([]byte(url), false)
+	value := ast.Value{
+		Kind: ast.ValueKindString,
+		Ref:  valueRef,
+	}
+	j.doc.AddValue(value)
+	return j.doc.ImportDirective(SpecifiedByDirectiveName, []int{j.doc.ImportArgument("url", value)})
 }
